@@ -54,6 +54,11 @@ theorem ends_nl_all (cfg : RCfg) :
   all_goals intros
   all_goals simp only [renderBlock, renderBlocks, renderItems]
   all_goals (try (first | exact NlOrEmpty.nil | exact nl_snoc _))
+  case case5 =>
+    split
+    · rw [List.append_nil]
+      exact nl_append_right _ (by decide)
+    · exact nl_append_right _ (by simp [List.getLast?_append])
   case case2 ih => exact ih
   case case3 ih =>
     refine NlOrEmpty.append ?_ ih
